@@ -2,6 +2,7 @@ package main
 
 import (
 	"fmt"
+	"go/types"
 	"sort"
 	"strings"
 )
@@ -90,17 +91,25 @@ func (w *World) unfoldSpecs(ts []*Term, depth int, reveal map[string]bool) []*Te
 			if sf.Opaque && !reveal[sf.Name] {
 				continue
 			}
-			if len(app.Args) != len(sf.Params)+len(sf.Reads) {
+			env := &Env{w: w, vars: map[string]TV{}, scope: sf.Scope, where: "unfolding " + sf.Name}
+			nview := 0
+			for _, p := range sf.Params {
+				switch p.Type.Underlying().(type) {
+				case *types.Slice:
+					nview++
+				case *types.Map:
+					nview += 2
+				}
+			}
+			if len(app.Args) != len(sf.Params)+nview+len(sf.Reads) {
 				continue
 			}
+			used := w.bindSpecParams(env, sf, app.Args)
 			fh := &fixedHeap{m: map[string]*Term{}, w: w}
 			for i, r := range sf.Reads {
-				fh.m[r] = app.Args[len(sf.Params)+i]
+				fh.m[r] = app.Args[used+i]
 			}
-			env := &Env{w: w, vars: map[string]TV{}, state: fh, scope: sf.Scope, where: "unfolding " + sf.Name}
-			for i, p := range sf.Params {
-				env.vars[p.Name] = TV{app.Args[i], p.Type}
-			}
+			env.state = fh
 			var body *Term
 			func() {
 				defer func() {
